@@ -241,7 +241,7 @@ func generated(a lib.Args) []RoundSpec {
 	return out
 }
 
-const ruleText = "rounds = (a) database rounds: G goroutines released together on ONE shared *gorm.DB (fresh gorm.Open per round, SQLite file, cold or warm schema cache, with/without PrepareStmt, 1 or 4 connections), each running a fully expanded program of create/create_batch/find/first/count/preload/joins/update/updates/delete/tx/association ops on its own id range (plus rounds where, step by step behind a spin barrier, all goroutines issue the SAME never-issued statement text under PrepareStmt, and rounds on a handle opened without PrepareStmt where every operation runs on its own Session{PrepareStmt:true}) over 1-3 families of the 39-type pool (chains, cycle, stars, self reference, pairs, many2many, embedded, unrelated), compared with the same programs run serially on a fresh database; one round in ten shares a Session handle whose first condition is a single Or; (b) protocol rounds: G goroutines calling schema.Parse on one shared fresh sync.Map with seeded delays in the namer callbacks, coarse trace (start/build/return) replayed in the Coq model. Every round runs in a child process built with -race; race reports are normalised to pairs of gorm functions. Each round gives 2 cases (3 with the Or handle): part 0 = results/trace/other races, part 1 = races in schema initialisation, part 2 = Where.Build swap. distinct = distinct (kind, G, cache, families, programs) shapes; non-trivial = G >= 2 and (db) at least 2 ops per goroutine or (proto) related model types"
+const ruleText = "rounds = (a) database rounds: G goroutines released together on ONE shared *gorm.DB (fresh gorm.Open per round, SQLite file, cold or warm schema cache, with/without PrepareStmt, 1 or 4 connections), each running a fully expanded program of create/create_batch/find/first/count/preload/joins/update/updates/delete/tx/association ops on its own id range (plus rounds where, step by step behind a spin barrier, all goroutines issue the SAME never-issued statement text under PrepareStmt, and rounds on a handle opened without PrepareStmt where every operation runs on its own Session{PrepareStmt:true}; shared Session handles carrying 1-7 Joins/Where/Order/Scopes/Select/Omit items to which every goroutine adds one more; first use of statement texts whose preparation fails; cold parents sharing a warm child; serializer-typed fields; staggered cold starts on a soft-delete model with a slow namer) over 1-3 families of the 39-type pool (chains, cycle, stars, self reference, pairs, many2many, embedded, unrelated), compared with the same programs run serially on a fresh database; one round in ten shares a Session handle whose first condition is a single Or; (b) protocol rounds: G goroutines calling schema.Parse on one shared fresh sync.Map with seeded delays in the namer callbacks, coarse trace (start/build/return) replayed in the Coq model. Every round runs in a child process built with -race; race reports are normalised to pairs of gorm functions. Each round gives 2 cases (3 with the Or handle): part 0 = results/trace/other races, part 1 = races in schema initialisation, part 2 = Where.Build swap. distinct = distinct (kind, G, cache, families, programs) shapes; non-trivial = G >= 2 and (db) at least 2 ops per goroutine or (proto) related model types"
 
 func yn(b bool) string {
 	if b {
